@@ -65,6 +65,10 @@ type Env struct {
 	Problem  string // set by Run: something another client saw go wrong while the case ran
 	Ops      int    // server-side I/O operations performed on the victim's connection
 	Bytes    int64  // bytes the victim's client put on the wire
+	// ClosesWhileClientStayed: for the case kinds in which the client stays connected and silent, the number of Close
+	// calls the proxy had made on the connection after 40 s of fake time, BEFORE the client finally went away (-1: the
+	// client did not stay)
+	ClosesWhileClientStayed int
 }
 
 // session drives the victim through a fixed scenario; every step tolerates a dead connection.
@@ -133,7 +137,7 @@ func Run(t *testing.T, cs Case, opts bubble.StackOpts, hello []byte, oracle func
 	return bubble.Run(t, func() {
 		st := bubble.NewStack(opts)
 		synctest.Wait()
-		env := &Env{St: st, Case: cs, Baseline: bubble.SUT()}
+		env := &Env{St: st, Case: cs, Baseline: bubble.SUT(), ClosesWhileClientStayed: -1}
 		var cl *bubble.Client
 		// Bystander (set by the check that wants it): another client's HTTP/2 connection has a request in flight - held at
 		// the backend - while the case runs, and is answered right after the victim's connection has failed: its response
@@ -519,6 +523,9 @@ func Run(t *testing.T, cs Case, opts bubble.StackOpts, hello []byte, oracle func
 		time.Sleep(40 * time.Second)
 		synctest.Wait()
 		if cs.Kind == "stall" || cs.Kind == "plain-http" || cs.Kind == "h2-mutation" || cs.Kind == "h2-flood" || cs.Kind == "h2-rare" || cs.Kind == "h2-short-frame" || cs.Kind == "stall-after-handshake" {
+			if cl.Srv != nil && !(cs.Kind == "plain-http" && cs.Val == 1) {
+				env.ClosesWhileClientStayed = cl.Srv.NumCloses()
+			}
 			cl.Close() // the stalled client finally goes away
 			if cl.Raw != nil {
 				cl.Raw.Close()
